@@ -44,6 +44,10 @@ FUNCS = [
     ("htp/bstr.c", "bstr_chr"),
     ("htp/bstr.c", "bstr_rchr"),
     ("htp/bstr.c", "bstr_to_lowercase"),
+    ("htp/htp_request.c", "htp_connp_req_buffer"),
+    ("htp/htp_response.c", "htp_connp_res_buffer"),
+    ("htp/htp_request.c", "htp_connp_req_clear_buffer"),
+    ("htp/htp_response.c", "htp_connp_res_clear_buffer"),
     ("htp/htp_list.c", "htp_list_array_get"),
     ("htp/htp_list.c", "htp_list_array_pop"),
     ("htp/htp_list.c", "htp_list_array_push"),
@@ -128,6 +132,8 @@ class Fn:
         self.local_mem = []
         self.uses_alloc = False
         self.struct_ints = []
+        self.written_fields = set()
+        self.byte_mems = set()
 
     def fresh(self):
         self.nv += 1
@@ -267,6 +273,9 @@ class Fn:
                 fn = "andL" if op == "&&" else "orL"
                 return E(v, "b", [(v, "%s (%s) (%s)" % (fn, self.opt_bool(ea), self.opt_bool(eb)))])
             if op in ("==", "!=") and (is_ptr(a["type"]) or is_ptr(b["type"])):
+                fp = self.field_ptr(a) or self.field_ptr(b)
+                if fp:
+                    return E("(decide (s.%s_null %s 0))" % (fp, "≠" if op == "==" else "="), "b")
                 lm = self.lmem_of(a) or self.lmem_of(b)
                 if lm:
                     return E("(decide (s.%s_null %s 0))" % (lm, "≠" if op == "==" else "="), "b")
@@ -319,11 +328,16 @@ class Fn:
             v = self.fresh()
             body = "if %s then %s else %s" % (ec.term, self.close(ea, lambda t: "some %s" % t), self.close(eb, lambda t: "some %s" % t))
             return E(v, "i", ec.binds + [(v, body)])
+        if k == "MemberExpr" and n.get("name") == "len" and self.struct_field(self.strip_deref(n["inner"][0])) \
+                and self.struct_field(self.strip_deref(n["inner"][0]))[0] == "pbstr":
+            f = self.struct_field(self.strip_deref(n["inner"][0]))[1] + "_len"
+            self.ensure_int(f, "u64")
+            return E("s.%s" % f, "i", rng="u64")
         if k == "MemberExpr" and self.struct_field(n):
             kind, f, w = self.struct_field(n)
             if kind == "int":
                 return E("s.%s" % f, "i", rng=w)
-            return E("ptr", "p")
+            return E("fieldptr:" + f, "p")
         if k == "MemberExpr":
             b = n["inner"][0]
             while b["kind"] in ("ImplicitCastExpr", "ParenExpr") or (b["kind"] == "UnaryOperator" and b.get("opcode") == "*"):
@@ -378,28 +392,78 @@ class Fn:
                 return sf[1]
         return None
 
-    def struct_field(self, n):
-        """`p->f` for a struct-pointer parameter p: ('int', state field, wrap) or ('mem', state field, None)"""
-        b = n["inner"][0]
-        while b["kind"] in ("ImplicitCastExpr", "ParenExpr") or (b["kind"] == "UnaryOperator" and b.get("opcode") == "*"):
-            b = b["inner"][0]
-        if b["kind"] != "DeclRefExpr":
+    @staticmethod
+    def strip_deref(t):
+        while t["kind"] in ("ImplicitCastExpr", "ParenExpr") or (t["kind"] == "UnaryOperator" and t.get("opcode") == "*"):
+            t = t["inner"][0]
+        return t
+
+    def field_ptr(self, n):
+        """the state name of a pointer-valued struct field behind `n`, else None"""
+        while n["kind"] in ("ImplicitCastExpr", "CStyleCastExpr", "ParenExpr"):
+            n = n["inner"][0]
+        if n["kind"] == "MemberExpr":
+            sf = self.struct_field(n)
+            if sf and sf[0] in ("mem", "pbytes", "pbstr") and not ctype(n["type"]).endswith("**"):
+                return sf[1]
+        return None
+
+    def struct_path(self, n):
+        """`p->a->b` for a struct-pointer parameter p -> (state name "p_a_b", the MemberExpr's C type) or None"""
+        names = []
+        t = n
+        while True:
+            while t["kind"] in ("ImplicitCastExpr", "ParenExpr") or (t["kind"] == "UnaryOperator" and t.get("opcode") == "*"):
+                t = t["inner"][0]
+            if t["kind"] == "MemberExpr":
+                names.append(t["name"])
+                t = t["inner"][0]
+                continue
+            break
+        if t["kind"] != "DeclRefExpr":
             return None
-        v = self.var.get(b["referencedDecl"]["id"])
+        v = self.var.get(t["referencedDecl"]["id"])
         if not (v and v[0] == "struct"):
             return None
-        f = "%s_%s" % (v[1], n["name"])
+        return "_".join([v[1]] + list(reversed(names)))
+
+    def struct_field(self, n):
+        """`p->f`: ('int', field, wrap) | ('mem', field, None) array of pointers or written byte buffer | ('pbytes', field, None) byte
+        pointer that is only read | ('pbstr', field, None); pointer fields also get an integer `<field>_null`"""
+        if n["kind"] != "MemberExpr":
+            return None
+        f = self.struct_path(n)
+        if f is None:
+            return None
         q = ctype(n["type"])
         if q.endswith("**"):
             if f not in self.mem_fields:
                 self.mem_fields.append(f)
             return ("mem", f, None)
+        if q in ("unsigned char *", "char *", "uint8_t *"):
+            self.ensure_int(f + "_null", "i32")
+            if f in self.written_fields:
+                if f not in self.mem_fields:
+                    self.mem_fields.append(f)
+                    self.byte_mems.add(f)
+                return ("mem", f, None)
+            if f not in self.bytes_params:
+                self.bytes_params.append(f)
+            return ("pbytes", f, None)
+        if q in ("bstr *", "struct bstr_t *"):
+            self.ensure_int(f + "_null", "i32")
+            return ("pbstr", f, None)
+        if q.endswith("*"):
+            return ("pstruct", f, None)
         w = wrap_of(n["type"])
+        self.ensure_int(f, w)
+        return ("int", f, w)
+
+    def ensure_int(self, f, w):
         if f not in [x for x, _ in self.fields]:
             self.fields.append((f, w))
             self.int_params.append(f)
             self.struct_ints.append(f)
-        return ("int", f, w)
 
     def lmem_of(self, n):
         while n["kind"] in ("ImplicitCastExpr", "CStyleCastExpr", "ParenExpr"):
@@ -428,13 +492,35 @@ class Fn:
         if n["kind"] == "BinaryOperator" and n["opcode"] == "+":
             a, b = n["inner"]
             m = self.elems(a)
-            return m[0], "(%s + %s)" % (m[1], self.count(b)) if m[1] != "0" else self.count(b)
+            k = self.count(b, m[0] in self.byte_mems)
+            return m[0], "(%s + %s)" % (m[1], k) if m[1] != "0" else k
         raise Unsupported("pointer expression into an array")
 
-    def count(self, n):
-        """`k * sizeof(T)` -> k (a pure integer term)"""
+    def bytes_src(self, n):
+        """a pointer into an immutable byte array (parameter, struct field or a local `p = field + k`) -> (Bytes term, offset term)"""
         while n["kind"] in ("ImplicitCastExpr", "CStyleCastExpr", "ParenExpr"):
             n = n["inner"][0]
+        if n["kind"] == "DeclRefExpr":
+            v = self.var.get(n["referencedDecl"]["id"])
+            if v and v[0] == "lptr":
+                return v[1], "s.%s" % v[2]
+            if v and v[0] == "bytes":
+                return v[1], ("s.%s_off" % v[1] if v[1] in self.moving else "0")
+        if n["kind"] == "MemberExpr":
+            sf = self.struct_field(n)
+            if sf and sf[0] == "pbytes":
+                return sf[1], "0"
+        return None
+
+    def count(self, n, bytewise=False):
+        """`k * sizeof(T)` -> k (a pure integer term); for byte buffers the expression itself"""
+        while n["kind"] in ("ImplicitCastExpr", "CStyleCastExpr", "ParenExpr"):
+            n = n["inner"][0]
+        if bytewise:
+            e = self.as_int(self.expr(n))
+            if e.binds:
+                raise Unsupported("size with reads")
+            return e.term
         if n["kind"] == "BinaryOperator" and n["opcode"] == "*":
             a, b = n["inner"]
             sa = a
@@ -570,7 +656,7 @@ class Fn:
                 src = self.elems(t["inner"][1])
                 if src[1] != "0":
                     raise Unsupported("realloc of an inner pointer")
-                newm = "(resizeM s.%s (Int.toNat %s))" % (src[0], self.count(t["inner"][2]))
+                newm = "(resizeM s.%s (Int.toNat %s))" % (src[0], self.count(t["inner"][2], src[0] in self.byte_mems))
             else:
                 newm = "(List.replicate (Int.toNat %s) 0)" % self.count(t["inner"][1])
             return ("assignS (fun s => some (if s.alloc_ok ≠ 0 then { s with %s_mem := %s, %s_null := 0 } else { s with %s_null := 1 }))"
@@ -643,10 +729,21 @@ class Fn:
             return self.alloc(self.lmem_of(n["inner"][0]), n["inner"][1])
         if k == "BinaryOperator" and n["opcode"] == "=" and n["inner"][0]["kind"] == "MemberExpr" \
                 and (self.struct_field(n["inner"][0]) or ("",))[0] == "mem":
+            f = self.struct_field(n["inner"][0])[1]
+            nullf = (", %s_null := 0" % f) if f in self.byte_mems else ""
             lm = self.lmem_of(n["inner"][1])
-            if not lm:
-                raise Unsupported("array field assigned from something that is not a local block")
-            return "assignS (fun s => some { s with %s := s.%s_mem })" % (self.struct_field(n["inner"][0])[1], lm)
+            if lm:
+                return "assignS (fun s => some { s with %s := s.%s_mem%s })" % (f, lm, nullf)
+            t = n["inner"][1]
+            while t["kind"] in ("ImplicitCastExpr", "CStyleCastExpr", "ParenExpr"):
+                if t.get("castKind") == "NullToPointer":
+                    return "assignS (fun s => some { s with %s := [], %s_null := 1 })" % (f, f)
+                t = t["inner"][0]
+            if t["kind"] == "CallExpr" and self.callee_name(t) == "malloc" and f in self.byte_mems:
+                self.uses_alloc = True
+                return ("assignS (fun s => some (if s.alloc_ok ≠ 0 then { s with %s := (List.replicate (Int.toNat %s) 0), %s_null := 0 } "
+                        "else { s with %s := [], %s_null := 1 }))" % (f, self.count(t["inner"][1], True), f, f, f))
+            raise Unsupported("array field assigned from something that is not a local block")
         if k == "BinaryOperator" and n["opcode"] == "=" and n["inner"][0]["kind"] == "ArraySubscriptExpr" and self.mem_base(n["inner"][0]["inner"][0]):
             return self.mem_store(n["inner"][0], n["inner"][1])
         if k == "BinaryOperator" and n["opcode"] == "=":
@@ -684,6 +781,10 @@ class Fn:
                 if d["kind"] != "VarDecl":
                     raise Unsupported("declaration %s" % d["kind"])
                 v = self.var[d["id"]]
+                if v[0] == "lptr":
+                    e = self.as_int(self.expr(d["inner"][0]["inner"][1]))
+                    parts.append(self.store(v[2], "i64", e))
+                    continue
                 if v[0] in ("bytes", "mem"):
                     continue
                 if v[0] == "lmem":
@@ -713,6 +814,14 @@ class Fn:
             return "retS (fun s => some 0)"
         if k == "CallExpr" and self.callee_name(n) == "free":
             return "skipS"
+        if k == "CallExpr" and self.callee_name(n) == "htp_log":
+            return "skipS"     # logging: no effect on the state that is modelled
+        if k == "CallExpr" and self.callee_name(n) == "memcpy" and self.bytes_src(n["inner"][2]):
+            d = self.elems(n["inner"][1])
+            src, soff = self.bytes_src(n["inner"][2])
+            cnt = self.count(n["inner"][3], d[0] in self.byte_mems)
+            return ("assignS (fun s => (memcpyB s.%s %s %s %s %s).bind fun m' => some { s with %s := m' })"
+                    % (d[0], d[1], src, soff, cnt, d[0]))
         if k == "CallExpr" and self.callee_name(n) == "memcpy":
             d, so = self.elems(n["inner"][1]), self.elems(n["inner"][2])
             cnt = self.count(n["inner"][3])
@@ -879,7 +988,43 @@ class Fn:
             if isinstance(c, dict):
                 self.find_written(c, out)
 
+    def scan_written_fields(self, n):
+        """byte-pointer struct fields that are assigned or are the destination of a memcpy: they are buffers the function owns"""
+        def path_of(t):
+            while t["kind"] in ("ImplicitCastExpr", "CStyleCastExpr", "ParenExpr"):
+                t = t["inner"][0]
+            if t["kind"] == "BinaryOperator" and t.get("opcode") == "+":
+                return path_of(t["inner"][0])
+            if t["kind"] == "MemberExpr" and ctype(t["type"]) in ("unsigned char *", "char *", "uint8_t *"):
+                return self.struct_path(t)
+            return None
+        if n.get("kind") == "BinaryOperator" and n.get("opcode") == "=":
+            p = path_of(n["inner"][0]) if n["inner"][0]["kind"] == "MemberExpr" else None
+            if p:
+                self.written_fields.add(p)
+        if n.get("kind") == "CallExpr":
+            f = n["inner"][0]
+            while f["kind"] in ("ImplicitCastExpr", "ParenExpr"):
+                f = f["inner"][0]
+            if f.get("referencedDecl", {}).get("name") == "memcpy":
+                p = path_of(n["inner"][1])
+                if p:
+                    self.written_fields.add(p)
+        for c in n.get("inner", []) or []:
+            if isinstance(c, dict):
+                self.scan_written_fields(c)
+
     def find_alloc_targets(self, n, out):
+        if n.get("kind") == "VarDecl" and n.get("inner"):
+            t = n["inner"][0]
+            while t["kind"] in ("ImplicitCastExpr", "CStyleCastExpr", "ParenExpr"):
+                t = t["inner"][0]
+            if t["kind"] == "CallExpr":
+                f = t["inner"][0]
+                while f["kind"] in ("ImplicitCastExpr", "ParenExpr"):
+                    f = f["inner"][0]
+                if f.get("referencedDecl", {}).get("name") in ("malloc", "realloc", "calloc"):
+                    out.add(n["id"])
         if n.get("kind") == "BinaryOperator" and n.get("opcode") == "=":
             t = n["inner"][1]
             while t["kind"] in ("ImplicitCastExpr", "CStyleCastExpr", "ParenExpr"):
@@ -951,10 +1096,11 @@ class Fn:
         self.find_written(d, written)
         used_as_array = set()
         self.find_array_use(d, used_as_array)
+        self.prescan_struct = True
         for c in d["inner"]:
             if c["kind"] == "ParmVarDecl":
                 nm = lean_name(c["name"])
-                if ctype(c["type"]) in ("htp_list_array_t *", "struct htp_list_array_t *"):
+                if ctype(c["type"]) in ("htp_list_array_t *", "struct htp_list_array_t *", "htp_connp_t *", "struct htp_connp_t *"):
                     self.var[c["id"]] = ("struct", nm)
                     self.decl_params.append(("struct", nm, None))
                 elif ctype(c["type"]) == "void *" and c["id"] not in used_as_array:
@@ -992,6 +1138,7 @@ class Fn:
                 body = c
         if body is None:
             raise Unsupported("no body")
+        self.scan_written_fields(body)
         self.moving = set()
         self.find_moving(body)
         for mv in sorted(self.moving):
@@ -999,6 +1146,13 @@ class Fn:
         assigned_alloc = set()
         self.find_alloc_targets(body, assigned_alloc)
         for v in self.collect(body):
+            t0 = (v.get("inner") or [None])[0]
+            if is_ptr(v["type"]) and t0 is not None and t0["kind"] == "BinaryOperator" and t0.get("opcode") == "+" and self.bytes_src(t0["inner"][0]) \
+                    and self.bytes_src(t0["inner"][0])[1] == "0":
+                nm = lean_name(v["name"])
+                self.var[v["id"]] = ("lptr", self.bytes_src(t0["inner"][0])[0], nm + "_off")
+                self.fields.append((nm + "_off", "i64"))
+                continue
             if is_ptr(v["type"]) and v["id"] in assigned_alloc:
                 nm = lean_name(v["name"])
                 self.var[v["id"]] = ("lmem", nm)
